@@ -854,19 +854,40 @@ def log_dump_part():
     import logging
     from harness import scenarios as S
     out, n = [], 0
-    for lab, ida, idb in (('plain', 'alice@openikev2', 'bob@openikev2'), ('percent', 'alice%sales@openikev2', 'bob%d@openikev2'),
-                          ('percent-s', 'a%s@openikev2', 'b%(x)s@openikev2'), ('braces', 'a{0}@openikev2', 'b{self}@openikev2'),
-                          ('percent-fqdn', '100%.openikev2', 'b%%.openikev2')):
+    ids = (('plain', 'alice@openikev2', 'bob@openikev2'), ('percent', 'alice%sales@openikev2', 'bob%d@openikev2'),
+           ('percent-s', 'a%s@openikev2', 'b%(x)s@openikev2'), ('braces', 'a{0}@openikev2', 'b{self}@openikev2'),
+           ('percent-fqdn', '100%.openikev2', 'b%%.openikev2'))
+    # ... and whatever the exchange looks like: several messages with the same Message ID in a row (COOKIE and
+    # INVALID_KE_PAYLOAD retries, alone and together, in IKE_SA_INIT and in CREATE_CHILD_SA), retransmissions, rekeys
+    cases = [(lab, ida, idb, 'plain') for lab, ida, idb in ids] + \
+            [('plain', ids[0][1], ids[0][2], sit) for sit in ('cookie', 'invalid-ke', 'cookie+invalid-ke', 'retransmitted')]
+    for lab, ida, idb, sit in cases:
         n += 1
-        confs = S.base_confs(a_over={'my_auth': {'id': ida, 'psk': 'testing'}, 'peer_auth': {'id': idb, 'psk': 'testing2'}},
-                             b_over={'my_auth': {'id': idb, 'psk': 'testing2'}, 'peer_auth': {'id': ida, 'psk': 'testing'}})
+        ke = {'dh': ['20', '19']}, {'dh': ['19', '20']}
+        confs = S.base_confs(a_over=dict({'my_auth': {'id': ida, 'psk': 'testing'}, 'peer_auth': {'id': idb, 'psk': 'testing2'}},
+                                         **(ke[0] if 'invalid-ke' in sit else {})),
+                             b_over=dict({'my_auth': {'id': idb, 'psk': 'testing2'}, 'peer_auth': {'id': ida, 'psk': 'testing'}},
+                                         **(ke[1] if 'invalid-ke' in sit else {})),
+                             a_entry=ke[0] if 'invalid-ke' in sit else None, b_entry=ke[1] if 'invalid-ke' in sit else None)
         w = S.new_world(confs, log_level=logging.DEBUG)
         w.all_logs, w.sent_log = [], []
+        if 'cookie' in sit:
+            w.endpoints['B'].controller.cookie_threshold = -1
         w.step(('acquire', 'A', 0, 0))
+        if sit == 'retransmitted':
+            # the first copy of the request is lost; the copy the timer sends is a message like any other
+            w.step(('drop', w.net[0].id))
+            w.sent_log.pop()
+            w.step(('tick', 2.1))
         w.deliver_all()
         w.step(('due', 'B', 0, 'dpd'))
         w.deliver_all()
-        doc = dict(clause='log-dump', ids=[ida, idb])
+        if sit != 'plain':
+            w.step(('acquire', 'A', 0, 0))            # CREATE_CHILD_SA (with an INVALID_KE_PAYLOAD retry where groups differ)
+            w.deliver_all()
+            w.step(('due', 'A', 0, 'rekey_ike'))
+            w.deliver_all()
+        doc = dict(clause='log-dump', ids=[ida, idb], situation=sit)
         bad_fmt = [m for lvl, m in w.all_logs if m.startswith('FORMAT-ERROR')]
         if bad_fmt:
             out.append(('log-dump', 'record-cannot-be-formatted', 'identities %r / %r: %d log records could not be formatted, e.g. %s' % (
@@ -883,8 +904,8 @@ def log_dump_part():
             continue
         want = 2 * len(w.sent_log)
         if len(dumps) != want:
-            out.append(('log-dump', 'dumps-missing', 'identities %r / %r: %d datagrams were sent and received, %d message dumps were '
-                        'logged (expected %d)' % (ida, idb, len(w.sent_log), len(dumps), want), doc))
+            out.append(('log-dump', 'dumps-missing:%s' % sit, 'identities %r / %r, exchange %s: %d datagrams were sent and received, %d message '
+                        'dumps were logged (expected %d)' % (ida, idb, sit, len(w.sent_log), len(dumps), want), doc))
         text = json.dumps(dumps)
         for ident in (ida, idb):
             if json.dumps(ident)[1:-1] not in text:
